@@ -68,7 +68,7 @@ func TestVerifBounded_C09_WriteFaults(t *testing.T) {
 			t.Fatal(err)
 		}
 		_ = services.StartAndAwaitRunning(ctx, lc)
-		if !verifAwaitState(inner, "me", ACTIVE, 3*time.Second) {
+		if !verifAwaitState(inner, "me", ACTIVE, 15*time.Second) {
 			v, _ := inner.Get(ctx, "ring")
 			st := "absent"
 			if d, ok := v.(*Desc); ok && d != nil {
